@@ -10,21 +10,32 @@ META = dict(
     level_text="Machine-checked for every cluster size other than the degenerate 1 and every adversarial event list: (a) a node's commit index never decreases, "
                "(b) an entry at a committed index of a node is never removed or replaced there. (c) agreement between nodes is machine-checked FALSE of the faithful model: "
                "witness histories with a single leader per term show FOUR independent causes - Append accepted without a previous-entry check (ack-from-diverged-log); leader commits an old-term entry by counting replicas (old-term-commit); "
-               "leader counts a peer-table row that is not an acknowledgement of its current term and commits an entry held by fewer than a quorum (commit-without-quorum, NEW: found while attempting the conditional proof, 5 nodes, "
-               "not found by the random search; rows are never reset on election, update_node writes them from the peer's own requests before validation, response() accepts acknowledgements of any term); a voter keeps its old term and acknowledges the old leader's Append (only before the C27 repairs) - "
+               "leader counts a peer-table row that is not an acknowledgement of its current term and commits an entry held by fewer than a quorum (commit-without-quorum, found while attempting the conditional proof, 5 nodes, "
+               "not found by the random search; before its repair rows are never reset on election, update_node writes them from the peer's own requests before validation, response() accepts acknowledgements of any term); a voter keeps its old term and acknowledges the old leader's Append (only before the C27 repairs) - "
                "plus the two election defects of C27; all are reproduced on the real code and recorded as known findings. "
-               "CONDITIONAL THEOREM (C28c_partial), machine-checked for the code now in /repo (model revision rr_fixed = with both C27 election repairs), every cluster size other than 1 and every adversarial event list: "
-               "if none of the three log-replication markers (ack-from-diverged-log, old-term-commit, commit-without-quorum) occurs in the run, no two nodes hold different entries at an index both have committed; "
-               "i.e. these three classes are the ONLY ways the repaired raft.rs can violate (c). Intermediate theorems pinned: log matching under the first marker alone (C28_log_matching_partial), well-formed logs, "
+               "REPAIR OF THE THIRD CLASS (fixes/C28-count-only-current-term-acks.diff: vote_received clears log_index/log_term/log_commit of the other rows when the node becomes Leader, and the (Leader, Heartbeat|Append, OK) arm of "
+               "response() requires request.term == self.term): the model carries it as the third revision flag fix_ack_term; the check reads the tree it runs against and selects the revision (rr_before_ack_fix = both C27 election "
+               "repairs only, rr_fixed = all three repairs) and cross-checks the reading by behaviour (scripted history). Machine-checked: the commit-without-quorum witnesses hold in every revision WITHOUT the repair "
+               "(C28c_refuted_commit_noquorum, ..._before_ack_fix, C28c_two_classes_not_enough) and the SAME event lists are harmless under rr_fixed (C28c_commit_noquorum_witness_harmless_fixed); "
+               "ROOT-CAUSE THEOREM C28c_no_stale_ack_fixed (full, every cluster size, every adversarial event list): with the repair no Leader ever counts, at a step that raises its commit index, a peer-table row that was not written "
+               "by commit() from an Ok answer to a request of its current term since it became Leader (marker stale_ack_counted_b, a function of the run with a ghost record of who wrote each row; set in the corpus witnesses before the "
+               "repair: C28c_stale_ack_before_ack_fix); the marker is also computed by the harness on the implementation and compared with the model on every event list. "
+               "On a tree WITH the repair the class commit-without-quorum is no longer accepted as a known finding (it is reported as repaired-class-reappeared-commit-without-quorum, a VIOLATION); on a tree without it, it stays a known finding. "
+               "CONDITIONAL THEOREM (C28c_partial), machine-checked for model revision rr_fixed, every cluster size other than 1 and every adversarial event list: "
+               "if none of the three log-replication markers (ack-from-diverged-log, old-term-commit, and the SEMANTIC marker commit-without-quorum) occurs in the run, no two nodes hold different entries at an index both have committed; "
+               "i.e. these three classes are the ONLY ways raft.rs can violate (c). PARTIAL: the third hypothesis is kept although its root cause is repaired in rr_fixed, because the semantic marker is also set in harmless histories of the repaired code "
+               "(a follower acknowledges, then votes in a higher term before the leader counts it); dropping it needs Raft's acknowledgement-history argument, not done. Intermediate theorems pinned: log matching under the first marker alone (C28_log_matching_partial), well-formed logs, "
                "and 'every committed index of every node was committed by a leader with the entry the node holds'. The hypotheses are non-vacuous (fault-free 3-node history with two entries committed everywhere). "
-               "The model carries the revision of the election code (C27): the check reads raft.rs and compares with the model of that revision; the refutations through the three log-replication classes are machine-checked for EVERY revision, "
-               "the others only before the C27 repairs - on a tree with the repairs their classes are no longer accepted as known findings. The model is tied to /repo on every run by comparing "
-               "complete cluster states after every event of seeded adversarial event lists; any disagreement of committed entries outside the listed classes, and any commit decrease "
+               "The refutations through ack-from-diverged-log and old-term-commit are machine-checked for EVERY revision (they remain with all repairs), "
+               "the election ones only before the C27 repairs - on a tree with the repairs their classes are no longer accepted as known findings. The model is tied to the tree under test on every run by comparing "
+               "complete cluster states after every event of seeded adversarial event lists; any disagreement of committed entries outside the accepted classes, and any commit decrease "
                "or replaced committed entry at all, is a VIOLATION.",
     design_ref="DESIGN.md §5 C28, C27–C30 common",
     level_note="Theorems are about the model; the tie to the code is differential execution. (c) is NOT a theorem of the code as it is (three open defect classes, known findings); what is proved is that nothing else can break it. "
-               "The third marker is semantic (at a leader's commit fewer than size/2+1 nodes of the leader's term hold its entry at that index), computed from the run, not from the ghost history; it also fires in some harmless histories "
-               "(a follower that acknowledged and then moved to a higher term), so the conditional theorem is weaker than a theorem about a repaired protocol would be. The one-node cluster is excluded.",
+               "The third marker of the conditional theorem is semantic (at a leader's commit fewer than size/2+1 nodes of the leader's term hold its entry at that index), computed from the run, not from the ghost history; it also fires in some harmless histories "
+               "(a follower that acknowledged and then moved to a higher term), so the conditional theorem is weaker than a theorem about a repaired protocol would be; the root-cause marker stale_ack_counted_b has no such false positives and is "
+               "proved false of every history of the repaired revision, but it does not yet replace the semantic hypothesis. The one-node cluster is excluded from the conditional theorems (not from the root-cause theorem). "
+               "The revision bit of the acknowledgement repair is read from the source text (both halves of the patch: the guard on the (Leader, Heartbeat|Append, OK) arm or in commit(), and the three assignments = 0 in vote_received) and cross-checked by behaviour.",
 )
 
 
